@@ -39,7 +39,7 @@ type preset struct {
 }
 
 func (m *Model) GetPositions(opts ...resource.ReadOption) (*traits.OpenClosePositions, error) {
-	allPositions := m.positions.List(opts...) // already sorted by ID aka Direction ordinal
+	allPositions := m.positions.List() // already sorted by ID aka Direction ordinal
 	dst := &traits.OpenClosePositions{
 		States: make([]*traits.OpenClosePosition, len(allPositions)),
 	}
@@ -52,7 +52,10 @@ func (m *Model) GetPositions(opts ...resource.ReadOption) (*traits.OpenClosePosi
 		dst.Preset = preset
 	}
 
-	return dst, nil
+	// The read mask describes fields of OpenClosePositions, not of the individual positions in the collection,
+	// so it has to be applied to the combined message, like PullPositions does.
+	// The states are the stored messages, filter a copy.
+	return resource.ComputeReadConfig(opts...).FilterClone(dst).(*traits.OpenClosePositions), nil
 }
 
 func (m *Model) GetPosition(dir traits.OpenClosePosition_Direction, opts ...resource.ReadOption) (*traits.OpenClosePosition, error) {
